@@ -505,20 +505,34 @@ impl ActorLifecycleGuard {
         if !self.armed {
             return;
         }
+        #[cfg(ractor_verif)]
+        crate::verif::point(
+            "guard.cleanup",
+            self.actor.get_id().pid(),
+            i64::from(event.is_some()),
+        );
 
         self.actor.set_status(ActorStatus::Stopping);
         self.actor.terminate();
+        #[cfg(ractor_verif)]
+        crate::verif::point("guard.terminated", self.actor.get_id().pid(), 0);
 
         if let Some(event) = event {
             self.actor.notify_supervisor(event);
         }
+        #[cfg(ractor_verif)]
+        crate::verif::point("guard.notified", self.actor.get_id().pid(), 0);
 
         if let Some(supervisor) = self.actor.try_get_supervisor() {
             self.actor.unlink(supervisor);
         }
+        #[cfg(ractor_verif)]
+        crate::verif::point("guard.unlinked", self.actor.get_id().pid(), 0);
 
         self.actor.set_status(ActorStatus::Stopped);
         self.armed = false;
+        #[cfg(ractor_verif)]
+        crate::verif::point("guard.done", self.actor.get_id().pid(), 0);
     }
 }
 
